@@ -29,7 +29,7 @@ theorem C06_fresh_cell (s : Store) (st : Stmt) (hc : match st with
     (hok : (stepS s st).2 = .made true) :
     (stepS s st).1.vars = s.vars ++ [some s.cells.length] ∧ (stepS s st).1.cells.length = s.cells.length + 1 := by
   cases st with
-  | alias _ | assign _ _ _ | read _ | readIdx _ _ | readSum _ => exact absurd hc id
+  | alias _ | assign _ _ _ | read _ | readIdx _ _ | readSum _ | poke _ _ _ => exact absurd hc id
   | _ => exact Proofs.HeapReads.stepNewS_made s _ hok
 
 /-- assigning into an array never alters an array that lives in a different cell — in particular
@@ -37,6 +37,11 @@ assigning into a derived array never alters the array it was derived from -/
 theorem C06_assign_frame (s : Store) (x y : Nat) (idx : Index) (v : Value Int)
     (hne : s.var x ≠ s.var y) : (stepS s (.assign x idx v)).1.val y = s.val y :=
   Proofs.HeapReads.assign_frame s x y idx v hne
+
+/-- the same for a write through the flat view / through the numpy array an array was constructed over -/
+theorem C06_poke_frame (s : Store) (x y k : Nat) (v : Int)
+    (hne : s.var x ≠ s.var y) : (stepS s (.poke x k v)).1.val y = s.val y :=
+  Proofs.HeapReads.poke_frame s x y k v hne
 
 /-- `a[...]` is an alias: it denotes the same cell, so a write through either is seen through both -/
 theorem C06_alias_shares (s : Store) (x : Nat) (hx : (s.var x).isSome) :
@@ -81,5 +86,14 @@ example : run init [.new [[1,2],[3]], .new [[10],[20,30]], .addArrays 0 1, .read
       .made true, .made true, .made true, .made true, .rows (some [[1,2],[3],[6,7],[8]]),
       .rows (some [[1,3],[3],[6,13],[8]]), .rows (some [[2],[],[7],[]]),
       .sums (some [0, 8]), .res (some (.scalar 3))] := by decide
+
+/- a write through the flat view (`x.ravel()[k] = v`, or through the numpy array `x` was constructed
+over) is seen by `x` and its aliases, not by arrays derived from `x` before it; position 3 of
+`[[1,2],[],[3,4]]` is cell (2,1); a position past the end is refused -/
+example : run init [.new [[1,2],[],[3,4]], .select 0 (.rows (.slice none none (some (-1)))), .alias 0,
+      .poke 0 3 9, .read 0, .read 1, .read 2, .poke 1 0 7, .read 1, .read 0, .poke 0 4 5] =
+    [.made true, .made true, .made true, .made true, .rows (some [[1,2],[],[3,9]]),
+      .rows (some [[3,4],[],[1,2]]), .rows (some [[1,2],[],[3,9]]), .made true,
+      .rows (some [[7,4],[],[1,2]]), .rows (some [[1,2],[],[3,9]]), .made false] := by decide
 
 end Props.C06
